@@ -350,6 +350,14 @@ def c09(run):
 
 @plan("C10")
 def c10(run):
+    g = D.RichGen(run.rng, maxdepth=1)
+    n = 400 if run.tier == "quick" else 6000
+    docs = []
+    while len(docs) < n:
+        toks = g.document("interface")
+        if any(t[1] == "oneway" for t in toks):
+            docs.append(piece_scenario([("a", D.layout(toks, run.rng, mode="spaces"))], "rich-oneway", validate=True))
+    run.add(docs)
     return validation_plan(run, ["ow"], nt_oneway, 300, 3000,
         "TLC enumerates family 'ow': interface oneway x per-method oneway x return type over all 17 categories for "
         "interfaces of up to 2 methods (3 methods over 4 return categories in the thorough tier), with and without a "
@@ -359,9 +367,9 @@ def c10(run):
 # --------------------------------------------------------------------------------------
 # C12 / C13 / C11 / C01: the store level
 # --------------------------------------------------------------------------------------
-def hist_model(run, mode, depth, ops, frm, contents="plain"):
+def hist_model(run, mode, depth, ops, frm, contents="plain", nids="3"):
     return run.add_model("MC_Hist", env={"MODE": mode, "DEPTH": str(depth), "OPS": ops, "FROM": frm,
-                                         "CONTENTS": contents, "TIER": run.tier})
+                                         "CONTENTS": contents, "TIER": run.tier, "NIDS": nids})
 
 
 def nt_history(sc, evs):
@@ -390,6 +398,10 @@ def c12(run):
     for s in hist_model(run, "hist", 1 if q else 2, "core", "all"):
         scs.append(F.hist_scenario(s, "mc-hist-all-direct", "direct"))
         scs.append(F.hist_scenario(s, "mc-hist-all-long", "long"))
+    # one id, every operation incl. the three add_file outcomes, longer histories (a file loaded, its slot
+    # overwritten by add_content, the unchanged file loaded again, ...)
+    for s in hist_model(run, "hist", 3 if q else 4, "all", "empty", nids="1"):
+        scs.append(F.hist_scenario(s, "mc-hist-one-id-all"))
     run.add(scs)
     run.add(F.random_histories(run.rng, 150 if q else 2500))
     run.rule = ("TLC enumerates MC_Hist: every operation history of the stated length over 3 ids x 4 structured contents "
@@ -450,6 +462,9 @@ def c11(run):
         scs.append(F.determinism_scenario(pr["files"], "rnd-project", run.rng,
                                           layout="oneline" if k % 2 else "default", procs=2 if k % 3 == 0 else 1))
     run.add(scs)
+    # files that keep their tree after a recovered syntax error AND get validation diagnostics: the two kinds of
+    # diagnostics must come out merged in ascending order
+    run.add(mutated_docs(run, 500 if q else 8000, validate=True))
     run.rule = ("TLC enumerates family 'order' (2-4 diagnostics forced onto one line: unused imports, forward declarations, "
                 "argument errors; ambiguous imports of one simple name from several packages; several files registering one "
                 "key with different kinds), each replayed repeatedly; every scenario validates the same (id, content) pairs 7 "
@@ -476,6 +491,13 @@ def c01(run):
     run.add(F.soup_scenarios(run.rng, 2500 if q else 60000, base))
     run.add(F.injection_scenarios([F.DOC_FRAME_1, F.DOC_FRAME_2] if q else [F.DOC_FRAME_1, F.DOC_FRAME_2] + base[:6],
                                   F.HAZARD if not q else F.HAZARD[:12]))
+    # histories: "exactly one result for each id CURRENTLY in the parser" after removals / replacements / failed loads
+    for s_ in hist_model(run, "hist", 2 if q else 3, "all", "empty"):
+        run.add([F.hist_scenario(s_, "mc-hist-empty-all")])
+    run.add(F.random_histories(run.rng, 60 if q else 1000))
+    # TLC-enumerated: every hazard atom at EVERY character gap of frame documents, with the specification's own
+    # lexer / tree builder / layout judging the parse-stage result of each
+    run.add(lex_scenarios(run, slot="parc" if q else "all", mode="inject"))
     run.rule = ("Seeded generators of arbitrary UTF-8 texts: character soups over a hazard alphabet (2-, 3-, 4-byte letters, "
                 "combining mark, NBSP, U+3000, U+2028, NEL, CR, CRLF, TAB, quote, slash, star, NUL, BOM), token soups, mutated "
                 "well-formed documents, generic nesting to depth 64, documents up to 64 KiB, 1-6 files per parser; and every "
@@ -499,7 +521,7 @@ def symbol_plan(run, what, nrand_q, nrand_t, rule, nontrivial, chunk=600):
     for s in run.add_model("MC_Validate", env={"FAMILY": "sym", "TIER": run.tier}):
         s["query"] = ["a", "r"]
         scs.append(F.symbol_scenario(s, "mc-sym", what))
-        if run.prop == "C16" and (not q or len(scs) % 3 == 0):
+        if run.prop in ("C16", "C17") and (not q or len(scs) % 3 == 0):
             scs.append(F.symbol_scenario(s, "mc-sym-layout", what, layout="random", rng=run.rng))
     if run.prop == "C17":
         for s in run.add_model("MC_Validate", env={"FAMILY": "shadow", "TIER": run.tier}):
@@ -510,7 +532,7 @@ def symbol_plan(run, what, nrand_q, nrand_t, rule, nontrivial, chunk=600):
         pr = g.project()
         pr["query"] = [f["id"] for f in pr["files"]][:3]
         scs.append(F.symbol_scenario(pr, "rnd-project", what))
-        if run.prop == "C16":
+        if run.prop in ("C16", "C17"):
             scs.append(F.symbol_scenario(pr, "rnd-project-layout", what, layout="random", rng=run.rng))
     run.add(scs)
     run.rule = rule
@@ -733,17 +755,17 @@ def recovery_scenario(pre, garbage, suf, rng, lay, src):
     return {"sid": "", "src": src, "ops": ops}
 
 
-def lex_scenarios(run, slot="all"):
-    out, st, printed = C.run_model("MC_Lex", workers=8, timeout=1800, wdir=run.wdir, env_extra={"SLOT": slot})
+def lex_scenarios(run, slot="all", mode="lexemes"):
+    out, st, printed = C.run_model("MC_Lex", workers=8, timeout=1800, wdir=run.wdir, env_extra={"SLOT": slot, "MODE": mode})
     run.model_states += st.get("distinct", 0)
     run.model_transitions += st.get("generated", 0)
-    run.models.append({"module": "MC_Lex", "env": {"SLOT": slot}, "distinct": st.get("distinct", 0)})
+    run.models.append({"module": "MC_Lex", "env": {"SLOT": slot, "MODE": mode}, "distinct": st.get("distinct", 0)})
     scs = []
     for s in printed:
         if s.startswith("SCEN "):
             x = json.loads(s[5:])
             text = "".join(R.ATOMS[a] if len(a) > 1 else a for a in x["atoms"])
-            scs.append({"sid": "", "src": f"mc-lex-{x['slot']}", "ops": [
+            scs.append({"sid": "", "src": f"mc-{mode}-{x['slot']}", "ops": [
                 {"op": "new", "i": 1},
                 {"op": "add", "i": 1, "id": "a", "text": text, "atoms": x["atoms"], "parsed": True},
                 {"op": "validate", "i": 1, "detail": "digest"}]})
@@ -770,6 +792,7 @@ def c03(run):
     scs, nwell = slot_scenarios(run, 2 if q else 3)
     run.add(scs)
     run.add(lex_scenarios(run))
+    run.add(lex_scenarios(run, slot="enum" if q else "all", mode="inject"))
     run.add(mutated_docs(run, 1500 if q else 30000, validate=True))
     g = D.RichGen(run.rng)
     for _ in range(300 if q else 3000):
@@ -812,6 +835,7 @@ def c04(run):
     run.add(mutated_docs(run, 1200 if q else 20000, validate=True))
     s2, _ = slot_scenarios(run, 1 if q else 2, layouts=("mixed",))
     run.add(s2)
+    run.add(lex_scenarios(run, slot="small" if q else "all", mode="inject"))
     run.rule = ("Rich generated documents and TLC-enumerated family documents under layouts that put multi-byte text, CRLF, "
                 "lone CR, NBSP / U+3000 / U+2028 / NEL, combining marks and comments before / inside / after every construct; the "
                 "trace spec computes every position from the pieces (AidlLayout: UTF-8 offsets, 1-based line, column in grapheme "
